@@ -71,6 +71,12 @@ func VerifH_C32_SessionScoped() {
 		return
 	}
 	item := cr.Results[0].MonitoredItemID
+	// the other session has a subscription of its own and may name either one in its requests
+	otherSub := vfCreateSub(s, c, other)
+	named := sub
+	if vfBool("nameOwnSubscription") {
+		named = otherSub
+	}
 	who := other
 	target := item
 	if vfBool("unknownID") {
@@ -80,11 +86,11 @@ func VerifH_C32_SessionScoped() {
 	}
 	mode := s.MonitoredItemService.Items[item].Mode
 	// change the monitoring mode
-	sm, _ := vfCall(s, c, &ua.SetMonitoringModeRequest{RequestHeader: vfHdr(who), SubscriptionID: sub, MonitoringMode: ua.MonitoringModeDisabled, MonitoredItemIDs: []uint32{target}}).(*ua.SetMonitoringModeResponse)
+	sm, _ := vfCall(s, c, &ua.SetMonitoringModeRequest{RequestHeader: vfHdr(who), SubscriptionID: named, MonitoringMode: ua.MonitoringModeDisabled, MonitoredItemIDs: []uint32{target}}).(*ua.SetMonitoringModeResponse)
 	vfAssert(sm != nil && len(sm.Results) == 1 && sm.Results[0] != ua.StatusOK, "another session (or an unknown id) may change the monitoring mode")
 	vfAssert(s.MonitoredItemService.Items[item] != nil && s.MonitoredItemService.Items[item].Mode == mode, "a refused SetMonitoringMode changed the item")
 	// delete the item
-	dm, _ := vfCall(s, c, &ua.DeleteMonitoredItemsRequest{RequestHeader: vfHdr(who), SubscriptionID: sub, MonitoredItemIDs: []uint32{target}}).(*ua.DeleteMonitoredItemsResponse)
+	dm, _ := vfCall(s, c, &ua.DeleteMonitoredItemsRequest{RequestHeader: vfHdr(who), SubscriptionID: named, MonitoredItemIDs: []uint32{target}}).(*ua.DeleteMonitoredItemsResponse)
 	vfAssert(dm != nil && len(dm.Results) == 1 && dm.Results[0] != ua.StatusOK, "another session (or an unknown id) may delete a monitored item")
 	// delete the subscription
 	tsub := sub
